@@ -167,10 +167,127 @@ Extra == <<
   X("rej-for-name-after-loop", TRUE, <<For("e", It12, Block(<<I(0)>>)), V("e")>>)
 >>
 
+(***************************************************************************)
+(* The operator / operand-type grid: every binary operator, assignment      *)
+(* operator, prefix / postfix operator, reducer and typed construct applied  *)
+(* to operands of a universe of static types (each operand is a hidden,      *)
+(* i.e. non-constant, value of exactly that type).  The grid makes the      *)
+(* conformance step compare the checker's can_be_used / return_type tables  *)
+(* with BinOk / BinType / AsgType / RedType / the queries exhaustively.      *)
+(* `negative' is what this specification says (no prior label).             *)
+(***************************************************************************)
+CONSTANT GridLevel        \* 0: none, 1: reduced operand universe (quick), 2: full
+WIF == WMulti(<<WInt, WFloat>>)
+TupIS == WTup(<<WInt, WStr>>)
+StA == WStruct(<<<<"a", WInt>>>>)
+StAB == WStruct(<<<<"a", WFloat>>, <<"b", WInt>>>>)
+A1 == ArrE(<<I(1)>>)
+Universe == <<
+  Hide(WInt, I(2)),                                        \*  1 int
+  Hide(WFloat, F(3)),                                      \*  2 float
+  Hide(WBool, B(TRUE)),                                    \*  3 bool
+  Hide(WStr, S(<<97>>)),                                   \*  4 string
+  Hide(WArr(WInt), A1),                                    \*  5 [int]
+  Hide(WIF, I(2)),                                         \*  6 int|float
+  At(ArrE(<<>>), H(0)),                                    \*  7 !
+  Hide(WMut(WInt), MutE(WInt, I(1))),                      \*  8 mut int
+  Hide(WIter(WInt), IterE(A1)),                            \*  9 () -> (bool, int)
+  Hide(WAny, I(2)),                                        \* 10 any
+  Hide(WArr(WNever), ArrE(<<>>)),                          \* 11 []
+  Hide(WTup(<<WInt, WStr>>), TupE(<<I(1), S(<<97>>)>>)),   \* 12 (int, string)
+  \* ---- full universe only
+  Hide(WVoid, Unit),                                       \* 13 ()
+  Hide(WArr(WFloat), ArrE(<<F(3)>>)),                      \* 14 [float]
+  Hide(WArr(WIF), A1),                                     \* 15 [int|float]
+  Hide(WMulti(<<TupIS, WTup(<<WFloat, WStr, WInt>>)>>), TupE(<<I(1), S(<<97>>)>>)),   \* 16 union of tuples
+  Hide(StA, StructE(<<<<"a", I(1)>>>>)),                   \* 17 struct{a: int}
+  Hide(WMulti(<<StA, StAB>>), StructE(<<<<"a", I(1)>>>>)), \* 18 union of structs
+  Hide(WMut(WIF), MutE(WIF, I(1))),                        \* 19 mut (int|float)
+  Hide(WMut(WArr(WInt)), MutE(WArr(WInt), A1)),            \* 20 mut [int]
+  Hide(WMulti(<<WMut(WInt), WMut(WIF)>>), MutE(WInt, I(1))),   \* 21 mut int | mut (int|float)
+  Hide(WFn(<<WInt>>, WInt), IdF),                          \* 22 (int) -> int
+  Hide(WIter(WFloat), IterE(ArrE(<<F(3)>>))),              \* 23 () -> (bool, float)
+  Hide(WIter(WBool), IterE(ArrE(<<B(TRUE)>>))),            \* 24 () -> (bool, bool)
+  Hide(WIter(WStr), IterE(ArrE(<<S(<<97>>)>>))),           \* 25 () -> (bool, string)
+  Hide(WMulti(<<WIter(WInt), WIter(WFloat)>>), IterE(A1)), \* 26 union of iterators
+  Hide(WMulti(<<WArr(WInt), WStr>>), A1),                  \* 27 [int]|string
+  Hide(WMulti(<<WFn(<<WInt>>, WInt), WFn(<<WIF>>, WFloat)>>), IdF)   \* 28 union of functions
+>>
+NU == IF GridLevel = 2 THEN Len(Universe) ELSE 12
+Un(i) == Universe[i]
+
+BinOpSeq == <<"+", "-", "*", "/", "**", "%", "<<", ">>", "<", "<=", ">", ">=", "==", "!=", "&", "|", "^", "&&", "||">>
+AsgOpSeq == <<"=", "+=", "-=", "*=", "/=", "%=", "**=", "<<=", ">>=", "&=", "|=", "^=">>
+AsgTargets == IF GridLevel = 2 THEN <<8, 19, 20, 21, 1, 5>> ELSE <<8, 1>>
+G(name, prog) == [id |-> "grid-" \o name, suite |-> "grid", negative |-> ~Accepts(prog), prog |-> prog]
+
+BinNode(op, a, b) == IF op = "&&" THEN AndE(a, b) ELSE IF op = "||" THEN OrE(a, b) ELSE Bin(op, a, b)
+GridBin == [n \in 1..(Len(BinOpSeq) * NU * NU) |->
+              LET o == (n - 1) \div (NU * NU) + 1
+                  a == (((n - 1) \div NU) % NU) + 1
+                  b == ((n - 1) % NU) + 1
+              IN G("bin" \o BinOpSeq[o] \o ToString(a) \o "," \o ToString(b), <<BinNode(BinOpSeq[o], Un(a), Un(b))>>)]
+GridAsg == [n \in 1..(Len(AsgOpSeq) * Len(AsgTargets) * NU) |->
+              LET o == (n - 1) \div (Len(AsgTargets) * NU) + 1
+                  a == AsgTargets[(((n - 1) \div NU) % Len(AsgTargets)) + 1]
+                  b == ((n - 1) % NU) + 1
+              IN G("asg" \o AsgOpSeq[o] \o ToString(a) \o "," \o ToString(b), <<Asg(AsgOpSeq[o], Un(a), Un(b))>>)]
+
+\* one-operand forms
+Flt == Hide(WFloat, F(3))
+Forms(a) == <<
+  <<"neg", <<NegE(a)>>>>, <<"not", <<NotE(a)>>>>, <<"deref", <<Deref(a)>>>>, <<"iter", <<IterE(a)>>>>,
+  <<"collect", <<CollectE(a)>>>>, <<"sum", <<RedE("$+", "int", a)>>>>, <<"product", <<RedE("$*", "int", a)>>>>,
+  <<"bitand", <<RedE("$&", "int", a)>>>>, <<"bitor", <<RedE("$|", "int", a)>>>>,
+  <<"all", <<RedE("$&&", "int", a)>>>>, <<"anyof", <<RedE("$||", "int", a)>>>>,
+  <<"tfilter", <<TFilterE(a, WInt)>>>>, <<"tupat0", <<TupAt(a, 0)>>>>, <<"tupat1", <<TupAt(a, 1)>>>>, <<"tupat2", <<TupAt(a, 2)>>>>,
+  <<"field-a", <<Field(a, "a")>>>>, <<"field-b", <<Field(a, "b")>>>>,
+  <<"at", <<At(a, H(0))>>>>, <<"index-of", <<At(A1, a)>>>>,
+  <<"slice-from", <<Slice(a, H(0), NoneV, NoneV)>>>>, <<"slice-all", <<Slice(a, NoneV, NoneV, NoneV)>>>>,
+  <<"slice-bound", <<Slice(A1, NoneV, a, NoneV)>>>>, <<"slice-step", <<Slice(A1, NoneV, NoneV, a)>>>>,
+  <<"call0", <<CallE(a, <<>>)>>>>, <<"call-int", <<CallE(a, <<H(1)>>)>>>>, <<"call-float", <<CallE(a, <<Flt>>)>>>>,
+  <<"arg-of-int-fn", <<CallE(IdF, <<a>>)>>>>,
+  <<"rep-value", <<RepE(a, H(1))>>>>, <<"rep-length", <<RepE(H(1), a)>>>>,
+  <<"destruct2", <<Destruct(<<"p", "q">>, a), V("p")>>>>,
+  <<"for", <<For("x", a, Block(<<V("x")>>))>>>>,
+  <<"for-elem-plus-1", <<For("x", a, Block(<<Bin("+", V("x"), I(1))>>))>>>>,
+  <<"ifset-int", <<IfSet("x", WInt, a, Block(<<Bin("+", V("x"), I(1))>>), NoneV)>>>>,
+  <<"match-int-float-string", <<Match(a, <<ArmTy("x", WInt, Block(<<I(0)>>)), ArmTy("y", WMulti(<<WFloat, WStr>>), Block(<<S(<<98>>)>>))>>)>>>>,
+  <<"match-array-other", <<Match(a, <<ArmTy("x", WArr(WAny), Block(<<V("x")>>)), ArmVal(<<I(2), a>>, Block(<<Unit>>)), ArmOther(Block(<<I(0)>>))>>)>>>>,
+  <<"if", <<If1(a, Block(<<I(0)>>))>>>>, <<"if-else-value", <<If(Hide(WBool, B(TRUE)), Block(<<a>>), Block(<<I(0)>>))>>>>,
+  <<"while", <<While(a, Block(<<Break>>))>>>>,
+  <<"whileset", <<WhileSet("x", WInt, a, Block(<<Break>>))>>>>,
+  <<"mut-int", <<MutE(WInt, a)>>>>, <<"mut-int-float", <<MutE(WIF, a)>>>>, <<"mut-any", <<MutE(WAny, a)>>>>, <<"mut-untyped", <<MutU(WAny, a)>>>>,
+  <<"return-int", <<Set("f", FnE(<<>>, WInt, <<Ret(a)>>)), I(0)>>>>,
+  <<"return-int-float", <<Set("f", FnE(<<>>, WIF, <<Ret(a)>>)), I(0)>>>>,
+  <<"return-void", <<Set("f", FnE(<<>>, WVoid, <<Ret(a)>>)), I(0)>>>>,
+  <<"last-statement-of-int-fn", <<Set("f", FnE(<<>>, WInt, <<a>>)), I(0)>>>>,
+  <<"hide-as-int-float", <<Hide(WIF, a)>>>>, <<"hide-as-any", <<Hide(WAny, a)>>>>,
+  <<"array-with-int", <<ArrE(<<a, H(1)>>)>>>>, <<"tuple-with-int", <<TupE(<<a, H(1)>>)>>>>,
+  <<"struct-field", <<Field(StructE(<<<<"a", a>>>>), "a")>>>>,
+  <<"map-with", <<MapE(IterE(A1), a)>>>>, <<"filter-with", <<FilterE(IterE(A1), a)>>>>,
+  <<"map-over", <<MapE(a, IdF)>>>>,
+  <<"filter-over", <<FilterE(a, FnE(<<P("q", WInt)>>, WBool, <<Ret(B(TRUE))>>))>>>>,
+  <<"part-over-any-pred", <<PartE(a, FnE(<<P("q", WAny)>>, WBool, <<Ret(B(TRUE))>>))>>>>,
+  <<"reduce-over", <<ReduceE(a, I(0), FnE(<<P("p", WInt), P("q", WInt)>>, WInt, <<Ret(V("p"))>>))>>>>,
+  <<"reduce-init", <<ReduceE(IterE(A1), a, FnE(<<P("p", WAny), P("q", WInt)>>, WInt, <<Ret(V("q"))>>))>>>>,
+  <<"reduce-with", <<ReduceE(IterE(A1), I(0), a)>>>>
+>>
+NForms == Len(Forms(I(0)))
+NUnary == Len(Universe)          \* one-operand forms always use the full universe (cheap)
+GridForms == [n \in 1..(NForms * NUnary) |->
+                LET f == (n - 1) \div NUnary + 1
+                    a == ((n - 1) % NUnary) + 1
+                    fm == Forms(Un(a))[f]
+                IN G(fm[1] \o "/" \o ToString(a), fm[2])]
+
+Grid == IF GridLevel = 0 THEN <<>> ELSE GridBin \o GridAsg \o GridForms
+
 EmitExtra ==
   /\ TLCGet("stats").distinct > 0
   /\ ndJsonSerialize(IOEnv.VERIF_OUT \o "/static_extra.ndjson", Extra)
-  /\ PrintT(<<"EXTRA", Len(Extra)>>)
+  /\ ndJsonSerialize(IOEnv.VERIF_OUT \o "/static_grid.ndjson", Grid)
+  /\ PrintT(<<"EXTRA", Len(Extra), "GRID", Len(Grid)>>)
 InitE == row = 0 /\ v = Nil
 NextE == FALSE /\ UNCHANGED <<row, v>>
 SpecE == InitE /\ [][NextE]_<<row, v>>
